@@ -67,6 +67,10 @@ func c10Run(c *Ctx) {
 		o.XMP = append(o.XMP, xmpPacket(g))
 	}
 	o.Max = 8
+	if x := c.L("gen:x"); x.Chance(1, 10) {
+		o.BigSeg = 1 + x.Intn(4) // an ignored segment with length field 0xFFFF..0xFFFC
+		c.Inc("probe:max-length-segment")
+	}
 	// call environment
 	var spec EnvSpec
 	spec.RK = cfg.Intn(harness.NumRK)
